@@ -7,11 +7,16 @@ def run(ck):
     thorough = ck.tier == "thorough"
     k = (60 if thorough else 1) * ck.scale
     jobs = []
+    # at most ~150 worlds per process: every world creates services whose thread-specific keys stay allocated (1024 per process)
+    chunks = max(1, int(12 * k + 149) // 150)
     for i in range(14):
-        jobs.append(dict(exe=asan, args=["--worlds", int(12 * k), "--ops", [150, 400, 1000][i % 3], "--seed", sa.subseed(ck, i)], label="net%d" % i, timeout=14400))
+        for c in range(chunks):
+            jobs.append(dict(exe=asan, args=["--worlds", max(1, int(12 * k) // chunks), "--ops", [150, 400, 1000][i % 3], "--seed", sa.subseed(ck, i + 1000 * c)], label="net%d_%d" % (i, c), timeout=14400))
     # the input class 'key or trigger name containing NUL / empty trigger name' (the wire format is NUL separated) is explored separately
+    ochunks = max(1, int(6 * k + 149) // 150)
     for i in range(2):
-        jobs.append(dict(exe=asan, args=["--worlds", int(6 * k), "--ops", 200, "--odd", "--seed", sa.subseed(ck, 50 + i)], label="odd%d" % i, timeout=14400))
+        for c in range(ochunks):
+            jobs.append(dict(exe=asan, args=["--worlds", max(1, int(6 * k) // ochunks), "--ops", 200, "--odd", "--seed", sa.subseed(ck, 50 + i + 1000 * c)], label="odd%d_%d" % (i, c), timeout=14400))
     # concurrent nodes: application threads of 1..3 nodes (shared cache_over_ip object, shared L1, per-thread connection) against
     # multi-threaded servers; TSan for the server/L1 paths, history checks (stale read after a completed invalidation, foreign or
     # torn value, full linearizability of short histories) for the behaviour
